@@ -237,6 +237,119 @@ pub fn streams(ctx: &Ctx) -> Stats {
     })
 }
 
+/// The very first use of the k-mer primitives in a process, made by many threads at the same instant (anything that is
+/// initialised lazily on first use is initialised under contention here).  The parent stage starts a few hundred fresh
+/// processes of the child stage; each child releases 16 threads from a barrier into their first calls.
+pub fn firstcall(ctx: &Ctx) -> Stats {
+    let mut st = Stats::new();
+    let n = ctx.n(150, 1500);
+    let exe = std::env::current_exe().expect("own path");
+    for i in 0..n {
+        if ctx.expired() {
+            st.truncated = true;
+            break;
+        }
+        let out = ctx.work.join(format!("firstcall-{}.json", i % 4));
+        let r = std::process::Command::new(&exe)
+            .args(["c02.firstcall.child", "--seed", &(ctx.seed.wrapping_mul(1_000_003).wrapping_add(i)).to_string(), "--tier", "quick", "--work"])
+            .arg(&ctx.work)
+            .arg("--replay-dir")
+            .arg(&ctx.replay_dir)
+            .arg("--out")
+            .arg(&out)
+            .args(["--flavour", &ctx.flavour, "--budget", "60"])
+            .stdout(std::process::Stdio::null())
+            .stderr(std::process::Stdio::piped())
+            .output();
+        st.case(true, mix(i) ^ mix(ctx.seed));
+        match r {
+            Err(e) => st.inconclusive(format!("cannot start the child process: {}", e)),
+            Ok(o) => {
+                let text = std::fs::read_to_string(&out).unwrap_or_default();
+                match Json::parse(&text) {
+                    Ok(j) => {
+                        let v = j.get("violations_total").and_then(|x| x.as_i()).unwrap_or(0);
+                        if v > 0 {
+                            let sigs = j.get("violations_by_sig").map(|x| x.to_string()).unwrap_or_default();
+                            let first = j.get("violations").and_then(|a| a.as_arr()).and_then(|a| a.first().cloned()).unwrap_or(Json::Null);
+                            st.violate(
+                                "firstcall.concurrent_first_use",
+                                format!("a fresh process whose first k-mer calls were made by 16 threads at once produced wrong results: {}", sigs),
+                                Json::obj().set("child_seed", Json::Int(ctx.seed.wrapping_mul(1_000_003).wrapping_add(i) as i128)).set("first_violation_of_child", first),
+                            );
+                        }
+                    }
+                    Err(_) => {
+                        if !o.status.success() {
+                            st.violate("firstcall.child_died", format!("child process died: {:?} {}", o.status, String::from_utf8_lossy(&o.stderr).chars().take(300).collect::<String>()), Json::obj().set("i", Json::Int(i as i128)));
+                        } else {
+                            st.inconclusive("child wrote no result".into());
+                        }
+                    }
+                }
+            }
+        }
+    }
+    st.set_extra("fresh_processes", Json::Int(st.evaluations as i128));
+    st.set_extra("threads_released_at_once_per_process", Json::u(16));
+    st
+}
+
+pub fn firstcall_child(ctx: &Ctx) -> Stats {
+    use std::sync::{Arc, Barrier, Mutex};
+    let threads = 16usize;
+    let barrier = Arc::new(Barrier::new(threads));
+    let merged = Mutex::new(Stats::new());
+    std::thread::scope(|sc| {
+        for t in 0..threads {
+            let barrier = barrier.clone();
+            let merged = &merged;
+            sc.spawn(move || {
+                let mut local = Stats::new();
+                let mut rng = Rng::keyed(ctx.seed, "c02.firstcall", t as u64);
+                // everything is prepared before the barrier; the first calls into the crate happen right after it
+                let k = rng.usize(1, 31);
+                let top: u64 = (1u64 << (2 * k)) - 1;
+                let xs: Vec<u64> = (0..24).map(|_| rng.next_u64() & top).collect();
+                let exp: Vec<u64> = xs.iter().map(|&x| model::rc_code(x, k)).collect();
+                let seq: Vec<u8> = (0..rng.usize(k, k + 40)).map(|_| *rng.pick(b"ACGTacgtuNn")).collect();
+                let kk = rng.usize(1, 6);
+                let canon = model::canonical_list(kk);
+                barrier.wait();
+                let which = t % 3;
+                for (i, (&x, &e)) in xs.iter().zip(exp.iter()).enumerate() {
+                    local.case(true, mix(x) ^ mix(k as u64));
+                    if which != 2 || i > 0 {
+                        let r = KmerGenerator::rev_comp(x, k);
+                        if r != e {
+                            local.violate("firstcall.revcomp", format!("thread {} call {}: rc({}, k={}) = {}, expected {}", t, i, x, k, r, e), code_case(x, k));
+                            break;
+                        }
+                    }
+                    if i == 0 {
+                        if let Some((sig, msg)) = check_stream(&seq, k.min(seq.len().max(1))) {
+                            local.violate(&format!("firstcall.{}", sig), msg, seq_case(&seq, k));
+                            break;
+                        }
+                        let (_pm, pk, cnt) = KmerGenerator::kmer_pos_maps(kk);
+                        if cnt != canon.len() || (0..cnt).any(|r| pk.get(&r) != Some(&canon[r])) {
+                            local.violate("firstcall.posmap", format!("thread {}: kmer_pos_maps({}) wrong on first use", t, kk), Json::obj().set("k", Json::u(kk)));
+                            break;
+                        }
+                        let txt = numeric_to_kmer(x, k);
+                        if model::encode(txt.as_bytes()) != Some(x as u128) {
+                            local.violate("firstcall.decode", format!("thread {}: numeric_to_kmer({}, {}) = {:?}", t, x, k, txt), code_case(x, k));
+                            break;
+                        }
+                    }
+                }
+                merged.lock().unwrap().merge(local);
+            });
+        }
+    });
+    merged.into_inner().unwrap()
+}
+
 pub fn replay(case: &Json, st: &mut Stats) {
     let k = case.get("k").and_then(|k| k.as_i()).unwrap_or(1) as usize;
     if let Some(c) = case.get("code").and_then(|c| c.as_i()) {
